@@ -83,4 +83,16 @@ Definition is_window_of (ts size off : Z) (w : Z * Z) : bool :=
 Definition unrepresentable (ts size off : Z) : bool :=
   (1 <=? size) && ((ts <? off mod size) || (U64 <=? win_start ts size off + size)).
 
+(* window.rs: impl PartialEq for Window: self.start == other.start && self.end == other.end *)
 Definition window_eqb (a b : Z * Z) : bool := (fst a =? fst b) && (snd a =? snd b).
+
+(* window.rs: impl Ord for Window: self.start.cmp(&o.start).then(self.end.cmp(&o.end));
+   impl PartialOrd: Some(self.cmp(o)) *)
+Definition window_cmp (a b : Z * Z) : comparison :=
+  match fst a ?= fst b with Eq => snd a ?= snd b | c => c end.
+Definition window_partial_cmp (a b : Z * Z) : option comparison := Some (window_cmp a b).
+
+(* window.rs: impl Hash for Window: self.start.hash(state); self.end.hash(state);
+   the model of a hash is the sequence of words fed to the hasher (equal feeds => equal hashes
+   for every Hasher) *)
+Definition window_hash_feed (a : Z * Z) : list Z := cons (fst a) (cons (snd a) nil).
